@@ -1878,6 +1878,45 @@ pub mod verif_hooks
 		(result, observe(analyzer))
 	}
 
+	/// Use a constant by name, with the given layers of declared variables
+	/// (name and resolution id; layer 0 holds the constants), optionally
+	/// inside the constant expression of the constant with the given id.
+	pub fn constant_use(
+		containers: &[ContainerState],
+		layers: &[Vec<(String, u32)>],
+		in_constexpr_of: Option<u32>,
+		name: &str,
+	) -> (Result<u32, Option<Error>>, Vec<ContainerState>)
+	{
+		let mut analyzer = build(containers);
+		analyzer.variable_stack = layers
+			.iter()
+			.map(|layer| {
+				layer
+					.iter()
+					.map(|(name, id)| Identifier {
+						name: name.clone(),
+						..identifier(*id)
+					})
+					.collect()
+			})
+			.collect();
+		analyzer.in_constexpr_of_constant = in_constexpr_of.map(identifier);
+		let used = Identifier {
+			name: name.to_string(),
+			..identifier(0)
+		};
+		let result = analyzer
+			.use_constant(used)
+			.map(|x| x.resolution_id)
+			.map_err(|poison| match poison
+			{
+				Poison::Error(error) => Some(error),
+				Poison::Poisoned => None,
+			});
+		(result, observe(analyzer))
+	}
+
 	pub fn container_depths(
 		containers: &[ContainerState],
 	) -> Vec<ContainerState>
